@@ -129,18 +129,42 @@ def check(an, rep, tier):
         q = r.qualname
         if q in ('grid.ind_to_poi', 'grid.poi_scale', 'grid.poi_to_ind'):
             src = r.variant.get('I') or r.variant.get('X')
-            rv = r.result
             want_nd = 2 if '[m,d]' in str(src) else 1
-            ok = rv.k == 'arr' and rv.dims is not None and \
-                len(rv.dims) == want_nd and rv.dims[-1] is not None and \
-                rv.dims[-1].as_int() == r.d
-            if q == 'grid.poi_to_ind':
-                ok = ok and rv.dt == 'i'
-            rep.add('S-ret', q, 'result shape for %s' % r.tag(),
-                    'ok' if ok else ('violation' if rv.k == 'arr' and
-                                     rv.dims is not None else 'unknown'),
-                    '' if ok else 'returned %r' % (rv,))
+            # every return path (the batch size is symbolic: a path that
+            # depends on it is also taken for a batch of one point)
+            for j, rv in enumerate(r.returns):
+                ok = rv.k == 'arr' and rv.dims is not None and \
+                    len(rv.dims) == want_nd and rv.dims[-1] is not None and \
+                    rv.dims[-1].as_int() == r.d
+                if q == 'grid.poi_to_ind':
+                    ok = ok and rv.dt == 'i'
+                rep.add('S-ret', q, 'result shape on return path %d for %s'
+                        % (j, r.tag()),
+                        'ok' if ok else ('violation' if rv.k == 'arr' and
+                                         rv.dims is not None else 'unknown'),
+                        '' if ok else 'returned %r' % (rv,))
     from ..poly import Poly, same
+    # the empirical CDF has one step per SAMPLE (repeated values keep their
+    # multiplicity): the tables captured by the returned closure have m + 1
+    # entries for a sample of m values
+    for r in runs:
+        if r.qualname != 'stat.cdf_getter':
+            continue
+        rv = r.result
+        env_ = rv.env if rv.k == 'func' and isinstance(rv.env, dict) else {}
+        tabs = [v for k, v in env_.items() if not k.startswith('$') and
+                v.k == 'arr' and v.dims is not None and len(v.dims) == 1
+                and v.dims[0] is not None]
+        want = Poly.sym('m') + 1
+        for ti, v in enumerate(tabs):
+            uniq = any('uniq' in repr(a) for a in v.dims[0].atoms())
+            ok = same(v.dims[0], want)
+            rep.add('S-cdf', 'stat.cdf_getter', 'step table #%d of length '
+                    'm + 1' % (ti + 1),
+                    'ok' if ok else ('violation' if uniq else 'unknown'),
+                    '' if ok else 'the table has %r entries: the number of '
+                    'steps is the number of DISTINCT sample values, so '
+                    'repeated values lose their multiplicity' % (v.dims[0],))
     for r in runs:
         if r.qualname == 'grid.grid_flat' and r.variant.get('n') == 'shape':
             rv = r.result
@@ -198,6 +222,7 @@ def check(an, rep, tier):
             'of length 2', 'ok' if raised else 'violation',
             '' if raised else 'inconsistent option lengths are not rejected')
     rep.floor('S-layout', 2, 'flat grid order')
+    rep.floor('S-cdf', 2, 'CDF step tables')
     rep.floor('F-inverse', 2, 'round trips')
     rep.floor('F-endpoint', 4, 'endpoints')
     rep.floor('P-two-sided', 5, 'clamps')
